@@ -11,6 +11,7 @@
 import MosVerif.Lemmas.LimiterSpec
 import MosVerif.Lemmas.LimiterGc
 import MosVerif.Lemmas.LimiterConc
+import MosVerif.Lemmas.LimiterListener
 import MosVerif.Generated.Facts
 namespace MosVerif.C15
 open MosVerif.Limiter
@@ -451,6 +452,28 @@ theorem model_meets_spec (c : Opts) (os : List Op) :
     have h2' : specNoSpuriousRefusal c ((0 : Nat) : Int) (Op.evs os) ((ClientLimiter.new c).run (Op.evs os)) = true := h2
     simp only [specEvs, run_length, beq_self_eq_true, h1, h2', Bool.and_self]
   · rfl
+
+/-- ★ **listener_model_meets_spec.**  For every burst and mask configuration (client rate
+    1 token/s, no global limit) and every sequence of client operations (UDP queries, TCP / HTTP /
+    DoQ connections with any number of queries, direct calls) from any addresses, the admission
+    attempts of the listener model at one instant satisfy the executable specification that
+    is used as the oracle on the real router's observed outcomes (`listenerSpec` = `atomsSpec` on
+    the attempts + "the upstream saw exactly the answered queries"). -/
+theorem listener_model_meets_spec (b m4 g : Int) (hg : g ≤ 0) (ops : List LOp)
+    (hs : saneBurst ⟨1, b, m4, 0⟩ = true) :
+    atomsSpec ⟨1, b, m4, 0⟩ (specBurst ⟨1, b, m4, 0⟩)
+      (listenerAtoms ops (ResLimiter.init ⟨g, ⟨1, b, m4, 0⟩⟩)) [] = true :=
+  listenerAtoms_spec ⟨1, b, m4, 0⟩ rfl ops _ [] (lrel_init ⟨1, b, m4, 0⟩ rfl hs g hg)
+
+/-- the model forwards exactly the query attempts it admitted -/
+theorem listener_model_forwards (ops : List LOp) (l : ResLimiter) :
+    (listenerRunAtoms ops l).2 = handledCount (listenerAtoms ops l) := listenerRunAtoms_fwd ops l
+
+/-- non-vacuity of the attempts specification: over-admission and a refusal within budget -/
+example : atomsSpec ⟨1, 2, 0, 0⟩ 2 [⟨.v4 1, 2, 0, true⟩, ⟨.v4 2, 1, 0, true⟩] [] = false := by decide
+example : atomsSpec ⟨1, 2, 0, 0⟩ 2 [⟨.v4 0x0A000001, 2, 0, true⟩, ⟨.v4 0x0A000101, 1, 0, false⟩] [] = false := by decide
+example : atomsSpec ⟨1, 2, 0, 0⟩ 2 [⟨.v4 0x0A000001, 2, 0, true⟩, ⟨.v4 0x0A000002, 1, 0, false⟩, ⟨.v4 0x0A000101, 1, 0, true⟩] [] = true := by
+  decide
 
 /-- the specification is not vacuous: it rejects over-admission … -/
 example : spec ⟨1, 2, 0, 0⟩ 0 [.allow ⟨.v4 1, 0, 2⟩, .allow ⟨.v4 2, 0, 1⟩] [true, true] = false := by decide
